@@ -208,7 +208,7 @@ def finish(prop, tier, level, results, replay_fn=None, trusted_base=(), explanat
     if extra_cov:
         cov.update(extra_cov)
     ev_level = level
-    if ev_level == 'proof' and (n_ob == 0 or n_proved != n_ob):
+    if ev_level == 'proof' and (n_ob == 0 or n_proved != n_ob or known_hits):
         ev_level = 'other'
     ev = {'property_id': prop, 'tier': tier, 'seed': seed, 'level': ev_level, 'coverage': cov,
           'assumptions': assumptions, 'wall_s': round(wall, 2), 'violations': len(violations) + len(bounded_viol)}
